@@ -1096,6 +1096,9 @@ class Projected3dROI(Roi):
     def rotate_to(self, theta):
         return self.roi_2d.rotate_to(theta)
 
+    def rotate_by(self, dtheta, **kwargs):
+        return self.roi_2d.rotate_by(dtheta, **kwargs)
+
 
 class Path(VertexROIBase):
 
